@@ -5,6 +5,7 @@ OUT=/tmp/confirm_results
 mkdir -p $OUT
 confirm_one() {
   d=$1; x=$2; id=$(basename $d)
+  if [ -n "${PREFIX:-}" ]; then id="${PREFIX}${id:1}"; fi  # PREFIX=D for round 2 (keeps round-1 results apart)
   tag=${id}_$x
   wt=/tmp/confirm_wt/$tag
   rm -rf $wt; git -C /repo worktree prune
@@ -21,5 +22,6 @@ confirm_one() {
 }
 export -f confirm_one
 export OUT
+export PREFIX=${PREFIX:-}
 for d in "$@"; do for x in a b; do [ -f $d/mutant_$x.diff ] && echo "$d $x"; done; done | xargs -P 8 -L 1 bash -c 'confirm_one $0 $1'
-cat $OUT/C* 2>/dev/null | grep -v "^$" | sort
+cat $OUT/${PREFIX:-C}??_? 2>/dev/null | grep -v "^$" | sort
